@@ -233,12 +233,14 @@ def oracle_c10(sc, tr):
     # back-off bounds between passes when nothing external hastens the retry
     ext = sorted(c[0] for c in sc.get("controls", []))
     dts = sorted(dial_ticks)
+    hangs = sorted(e[0] for e in tr if e[1] == "dial" and e[3] == "hang")
     for a, b in zip(dts, dts[1:]):
         if any(a <= x <= b for x in ext):
             continue
         gap = b - a
-        if gap > SIXTY_S + TEN_S * nh_max:
-            bad.append(("gap-too-long", f"no attempt between ticks {a} and {b}"))
+        nhang = sum(1 for h in hangs if a <= h < b)       # every hanging dial round adds its 10 s timeout
+        if gap > SIXTY_S + TEN_S * nhang:
+            bad.append(("gap-too-long", f"no attempt between ticks {a} and {b} ({gap / 4096:.2f} s, {nhang} dial timeouts)"))
         if gap < 3072:
             bad.append(("gap-too-short", f"attempts at {a} and {b} only {gap} ticks apart"))
     # retries continue: disconnected at the end, not closed, last outcome not auth => a connector is alive
